@@ -242,8 +242,9 @@ def unit_options(u, rec):
         expect_value_error(rec, lambda: ic.GaussianRandomField(D, zero_mean=False, std_one=True), "C20/options/GaussianRandomField/zero_mean_std", "invalid normalisation accepted", D=D)
         expect_value_error(rec, lambda: ic.GaussianRandomField(D, std_one=True, max_one=True), "C20/options/GaussianRandomField/std_max", "invalid normalisation accepted", D=D)
         expect_value_error(rec, lambda: ic.RandomTruncatedFourierSeries(D, std_one=True, max_one=True), "C20/options/TruncatedFourierSeries/std_max", "invalid normalisation accepted", D=D)
-        expect_value_error(rec, lambda: ic.RandomTruncatedFourierSeries(D, offset_range=(0.5, 1.0), std_one=True), "C20/options/TruncatedFourierSeries/offset_std",
-                           "non-zero offset together with std_one accepted", D=D)
+        for off in ((0.5, 1.0), (0.0, 1.0), (-1.0, 0.0), (-1.0, 1.0), (2.0, 2.0)):
+            expect_value_error(rec, lambda off=off: ic.RandomTruncatedFourierSeries(D, offset_range=off, std_one=True), "C20/options/TruncatedFourierSeries/offset_std",
+                               "non-zero offset range together with std_one accepted", D=D, offset_range=list(off))
         expect_value_error(rec, lambda: ic.RandomDiscontinuities(D, zero_mean=False, std_one=True), "C20/options/RandomDiscontinuities/zero_mean_std", "invalid normalisation accepted", D=D)
         expect_value_error(rec, lambda: ic.RandomDiscontinuities(D, zero_mean=True, std_one=True, max_one=True), "C20/options/RandomDiscontinuities/std_max", "invalid normalisation accepted", D=D)
         expect_value_error(rec, lambda: ic.Discontinuities((), zero_mean=False, std_one=True), "C20/options/Discontinuities/zero_mean_std", "invalid normalisation accepted", D=D)
@@ -252,7 +253,9 @@ def unit_options(u, rec):
             expect_value_error(rec, lambda: ic.RandomSineWaves1d(D), "C20/options/RandomSineWaves1d/dimension", "1D-only generator built in another dimension", D=D)
             sw = ic.SineWaves1d(1.0, (1.0,), (1,), (0.0,))
             expect_value_error(rec, lambda: sw(ex.make_grid(D, 1.0, 8)), "C20/options/SineWaves1d/dimension", "1D-only initial condition evaluated on a higher-dimensional grid", D=D)
-    expect_value_error(rec, lambda: ic.RandomSineWaves1d(1, offset_range=(0.5, 1.0), std_one=True), "C20/options/RandomSineWaves1d/offset_std", "invalid option combination accepted")
+    for off in ((0.5, 1.0), (0.0, 1.0), (-1.0, 0.0)):
+        expect_value_error(rec, lambda off=off: ic.RandomSineWaves1d(1, offset_range=off, std_one=True), "C20/options/RandomSineWaves1d/offset_std", "invalid option combination accepted",
+                           offset_range=list(off))
     expect_value_error(rec, lambda: ic.RandomSineWaves1d(1, std_one=True, max_one=True), "C20/options/RandomSineWaves1d/std_max", "invalid option combination accepted")
     expect_value_error(rec, lambda: ic.SineWaves1d(1.0, (1.0,), (1,), (0.0,), offset=0.3, std_one=True), "C20/options/SineWaves1d/offset_std", "invalid option combination accepted")
     expect_value_error(rec, lambda: ic.SineWaves1d(1.0, (1.0,), (1,), (0.0,), std_one=True, max_one=True), "C20/options/SineWaves1d/std_max", "invalid option combination accepted")
